@@ -32,13 +32,18 @@ CONSTANTS Peers,      \* responder nodes, e.g. {2, 3}; the requester is node 1
           MaxCancel,  \* cancel_request calls the user may make
           DialOpts,   \* subset of {"dial", "reject"}
           Fixed,      \* tags of known defects modelled as repaired
-          KeepHist    \* record the stimulus history (behaviour generation)
+          Wedge,      \* the manager may leave a dial without any outcome (known C05 defect: negotiated
+                      \* connection refused by the outgoing limit, peer stays Dialing, nothing reported)
+          KeepHist,   \* record the stimulus history (behaviour generation)
+          p2, p3      \* responder nodes as model values (symmetry)
 
 R == 1
 FixedNone == {}
 FixedD9 == {"d9"}
 BothOpts == {"dial", "reject"}
 DialOnly == {"dial"}
+OnePeer == {p2}
+TwoPeers == {p2, p3}
 
 VARIABLES
   \* RequestResponseProtocol
@@ -53,6 +58,7 @@ VARIABLES
   \* environment
   mgr,       \* peer -> "disc" | "conn"    (TransportManager peer state)
   mdial,     \* peer -> dial in flight
+  wedged,    \* peers whose dial will never get an outcome (only with Wedge)
   svc,       \* peer -> "none" | "live" | "dead": connection held in TransportService.connections
   sids,      \* request ids whose substream was requested from the live connection, not yet reported
   nc,        \* connections established so far
@@ -64,9 +70,9 @@ VARIABLES
   mon, kf, hist, nrid
 
 pvars == <<inpeers, active, pdial, pout, fut, cancels, evq, cmdq>>
-evars == <<mgr, mdial, svc, sids, nc>>
+evars == <<mgr, mdial, wedged, svc, sids, nc>>
 rvars == <<rq, inb, tgt>>
-vars == <<inpeers, active, pdial, pout, fut, cancels, evq, cmdq, mgr, mdial, svc, sids, nc,
+vars == <<inpeers, active, pdial, pout, fut, cancels, evq, cmdq, mgr, mdial, wedged, svc, sids, nc,
           rq, inb, tgt, mon, kf, hist, nrid>>
 
 Q(r) == "q" \o ToString(r)     \* request payload digest
@@ -79,7 +85,7 @@ Rids == 0..(MaxReq - 1)
 Init ==
   /\ inpeers = {} /\ active = [p \in Peers |-> {}] /\ pdial = [p \in Peers |-> <<>>]
   /\ pout = {} /\ fut = <<>> /\ cancels = {} /\ evq = <<>> /\ cmdq = <<>>
-  /\ mgr = [p \in Peers |-> "disc"] /\ mdial = [p \in Peers |-> FALSE]
+  /\ mgr = [p \in Peers |-> "disc"] /\ mdial = [p \in Peers |-> FALSE] /\ wedged = {}
   /\ svc = [p \in Peers |-> "none"] /\ sids = {} /\ nc = 0
   /\ rq = [r \in Rids |-> "none"] /\ inb = [p \in Peers |-> {}] /\ tgt = [r \in Rids |-> 0]
   /\ mon = MonInit([n \in {R} \cup Peers |-> IF n = R THEN NoLimit ELSE MaxConc])
@@ -141,7 +147,7 @@ OnSendRequest(c) ==
       \* dial that fails at once (EDialFail)
       /\ mdial' = [mdial EXCEPT ![p] = TRUE]
       /\ InsertDial(p, r)
-      /\ UNCHANGED <<inpeers, active, pout, mgr, svc, sids, nc, mon>>
+      /\ UNCHANGED <<inpeers, active, pout, mgr, wedged, svc, sids, nc, mon>>
   ELSE IF svc[p] # "live" THEN
     /\ mon' = MonFailEv(mon, R, r)                         \* open_substream failed
     /\ UNCHANGED <<inpeers, active, pdial, pout, evars, kf>>
@@ -149,7 +155,7 @@ OnSendRequest(c) ==
     /\ active' = [active EXCEPT ![p] = @ \cup {r}]
     /\ pout' = pout \cup {r}
     /\ sids' = sids \cup {r}
-    /\ UNCHANGED <<inpeers, pdial, mgr, mdial, svc, nc, mon, kf>>
+    /\ UNCHANGED <<inpeers, pdial, mgr, mdial, wedged, svc, nc, mon, kf>>
 
 \* on_cancel_request
 OnCancel(c) ==
@@ -188,7 +194,7 @@ OnConnEst(p, alive) ==
           ELSE \* open_substream failed: the request is failed and the peer is not registered
             /\ mon' = SeqFailEvs(mon, pdial[p])
             /\ UNCHANGED <<inpeers, active, pout, sids>>
-  /\ UNCHANGED <<fut, cancels, mgr, mdial, nc, kf>>
+  /\ UNCHANGED <<fut, cancels, mgr, mdial, wedged, nc, kf>>
 
 \* on_connection_closed
 OnConnClosed(p) ==
@@ -199,7 +205,7 @@ OnConnClosed(p) ==
        /\ mon' = FailEvs(mon, active[p])
        /\ active' = [active EXCEPT ![p] = {}]
      ELSE UNCHANGED <<inpeers, active, mon>>
-  /\ UNCHANGED <<pdial, fut, cancels, mgr, mdial, sids, nc, kf>>
+  /\ UNCHANGED <<pdial, fut, cancels, mgr, mdial, wedged, sids, nc, kf>>
 
 \* on_dial_failure
 OnDialFailure(p) ==
@@ -283,26 +289,35 @@ NewConn(p) ==
   /\ evq' = Append(evq, [k |-> "est", x |-> p, i |-> 1])
 
 EDialOk(p) ==
-  /\ mdial[p] /\ (mgr[p] = "disc" => nc < MaxConn)
+  /\ mdial[p] /\ p \notin wedged /\ (mgr[p] = "disc" => nc < MaxConn)
   /\ mdial' = [mdial EXCEPT ![p] = FALSE]
   /\ IF mgr[p] = "disc" THEN NewConn(p)
      ELSE UNCHANGED <<mgr, nc, evq>>      \* a secondary connection: protocols are not told
   /\ hist' = H([a |-> "dialok", p |-> p])
-  /\ UNCHANGED <<inpeers, active, pdial, pout, fut, cancels, cmdq, svc, sids, rvars, mon, kf, nrid>>
+  /\ UNCHANGED <<inpeers, active, pdial, pout, fut, cancels, cmdq, wedged, svc, sids, rvars, mon, kf, nrid>>
 
 EDialFail(p) ==
-  /\ mdial[p]
+  /\ mdial[p] /\ p \notin wedged
   /\ mdial' = [mdial EXCEPT ![p] = FALSE]
   /\ evq' = Append(evq, [k |-> "dialfail", x |-> p, i |-> 0])
   /\ hist' = H([a |-> "dialfail", p |-> p])
-  /\ UNCHANGED <<inpeers, active, pdial, pout, fut, cancels, cmdq, mgr, svc, sids, nc, rvars, mon, kf, nrid>>
+  /\ UNCHANGED <<inpeers, active, pdial, pout, fut, cancels, cmdq, mgr, wedged, svc, sids, nc, rvars, mon, kf, nrid>>
+
+\* known C05 defect (outbound-established-rejected-by-limit): the dialed connection is negotiated,
+\* the manager refuses it because the outgoing limit was reached meanwhile, the peer stays
+\* "dialing" for ever and no DialFailure is sent to the protocols
+EDialWedge(p) ==
+  /\ Wedge /\ mdial[p] /\ p \notin wedged
+  /\ wedged' = wedged \cup {p}
+  /\ hist' = H([a |-> "wedge", p |-> p])
+  /\ UNCHANGED <<pvars, mgr, mdial, svc, sids, nc, rvars, mon, kf, nrid>>
 
 \* the peer connects to us (or the user dialed it beforehand)
 EInbound(p) ==
   /\ mgr[p] = "disc" /\ nc < MaxConn
   /\ NewConn(p)
   /\ hist' = H([a |-> "connect", p |-> p])
-  /\ UNCHANGED <<inpeers, active, pdial, pout, fut, cancels, cmdq, mdial, svc, sids, rvars, mon, kf, nrid>>
+  /\ UNCHANGED <<inpeers, active, pdial, pout, fut, cancels, cmdq, mdial, wedged, svc, sids, rvars, mon, kf, nrid>>
 
 \* the connection dies (responder disconnects, link cut, keep-alive): substreams still being
 \* opened are never reported any more, ConnectionClosed is
@@ -314,20 +329,20 @@ EClose(p) ==
   /\ evq' = Append([j \in 1..Len(evq) |-> IF evq[j].k = "est" /\ evq[j].x = p THEN [evq[j] EXCEPT !.i = 0] ELSE evq[j]],
                    [k |-> "closed", x |-> p, i |-> 0])
   /\ hist' = H([a |-> "close", p |-> p])
-  /\ UNCHANGED <<inpeers, active, pdial, pout, fut, cancels, cmdq, mdial, nc, rvars, mon, kf, nrid>>
+  /\ UNCHANGED <<inpeers, active, pdial, pout, fut, cancels, cmdq, mdial, wedged, nc, rvars, mon, kf, nrid>>
 
 ESubOpen(r) ==
   /\ r \in sids
   /\ sids' = sids \ {r}
   /\ evq' = Append(evq, [k |-> "subopen", x |-> r, i |-> 0])
-  /\ UNCHANGED <<inpeers, active, pdial, pout, fut, cancels, cmdq, mgr, mdial, svc, nc, rvars, mon, kf, hist, nrid>>
+  /\ UNCHANGED <<inpeers, active, pdial, pout, fut, cancels, cmdq, mgr, mdial, wedged, svc, nc, rvars, mon, kf, hist, nrid>>
 
 ESubFail(r) ==
   /\ r \in sids
   /\ sids' = sids \ {r}
   /\ evq' = Append(evq, [k |-> "subfail", x |-> r, i |-> 0])
   /\ hist' = H([a |-> "subfail", r |-> r])
-  /\ UNCHANGED <<inpeers, active, pdial, pout, fut, cancels, cmdq, mgr, mdial, svc, nc, rvars, mon, kf, nrid>>
+  /\ UNCHANGED <<inpeers, active, pdial, pout, fut, cancels, cmdq, mgr, mdial, wedged, svc, nc, rvars, mon, kf, nrid>>
 
 -----------------------------------------------------------------------------
 (* responders' users                                                        *)
@@ -354,7 +369,7 @@ User == \/ \E p \in Peers : \E d \in DialOpts : UIssue(p, d)
 Internal ==
   \/ PCmd \/ PEvt
   \/ \E r \in Rids : \E res \in {"resp", "canceled", "err"} : PFut(r, res)
-  \/ \E p \in Peers : EDialOk(p) \/ EDialFail(p)
+  \/ \E p \in Peers : EDialOk(p) \/ EDialFail(p) \/ EDialWedge(p)
   \/ \E r \in Rids : ESubOpen(r) \/ ESubFail(r)
 Env ==
   \/ \E p \in Peers : EInbound(p) \/ EClose(p)
@@ -371,31 +386,32 @@ FairSpec == Spec /\ WF_vars(Internal)
 \* nothing is in flight at the requesting node
 Quiescent ==
   /\ evq = <<>> /\ cmdq = <<>> /\ fut = <<>> /\ sids = {}
-  /\ \A p \in Peers : ~mdial[p]
+  /\ \A p \in Peers : mdial[p] => p \in wedged
 
 \* the monitor never objects (second terminal event, foreign response, request seen twice,
 \* bound exceeded, panic)
 MonOK == mon.bad = ""
 \* C13 liveness as a quiescence obligation: whatever is still without a terminal event when
 \* nothing is in flight was lost on a path tagged as a known defect
-QuiesceOK == Quiescent => Unsettled(mon) \subseteq kf
+Stuck == UNION {ToSet(pdial[p]) : p \in wedged}     \* waiting for a dial the manager will never conclude
+QuiesceOK == Quiescent => Unsettled(mon) \subseteq (kf \cup Stuck)
 \* the untagged version - violated by the unrepaired model (selftest: TLC must find D9)
 QuiesceStrict == Quiescent => Unsettled(mon) = {}
 \* bookkeeping of the protocol is exact when nothing is in flight
 BooksOK == Quiescent => /\ pout = {} /\ cancels = {}
-                        /\ \A p \in Peers : active[p] = {} /\ (kf = {} => pdial[p] = <<>>)
+                        /\ \A p \in Peers : active[p] = {} /\ (kf = {} /\ p \notin wedged => pdial[p] = <<>>)
 \* the responder-side bound on the model state
 BoundOK == MaxConc # NoLimit => \A p \in Peers : Cardinality(inb[p]) <= MaxConc
 
 \* []( issued /\ ~cancelled => <> terminal ), for the repaired model under FairSpec
 Live == \A r \in Rids :
-          (r < nrid /\ mon.req[r].st = "open" /\ ~mon.req[r].canc) ~> (mon.req[r].st \in {"resp", "fail"} \/ mon.req[r].canc \/ r \in kf)
+          (r < nrid /\ mon.req[r].st = "open" /\ ~mon.req[r].canc) ~> (mon.req[r].st \in {"resp", "fail"} \/ mon.req[r].canc \/ r \in kf \/ r \in Stuck)
 
 \* the monitor's memory about finished requests cannot influence anything the model can still do
 ViewMon == [req |-> [k \in DOMAIN mon.req |-> IF mon.req[k].st \in {"resp", "fail", "void"} /\ rq[k] \in {"over", "none"}
                                                  THEN [st |-> mon.req[k].st, canc |-> mon.req[k].canc] ELSE mon.req[k]],
             inb |-> {k \in DOMAIN mon.inb : mon.inb[k].open}, bad |-> mon.bad]
-View == <<inpeers, active, pdial, pout, fut, cancels, evq, cmdq, mgr, mdial, svc, sids, nc,
+View == <<inpeers, active, pdial, pout, fut, cancels, evq, cmdq, mgr, mdial, wedged, svc, sids, nc,
           rq, inb, tgt, ViewMon, kf, nrid>>
 Sym == Permutations(Peers)
 Emit == PrintT(<<"B", ToJson([h |-> hist'])>>)
